@@ -13,28 +13,28 @@ CHECKS = {
                 "(one action per language rule) over them and over seeded random programs; every run of the real pipeline "
                 "(parser, transpiler, Bash converter, /bin/bash) is recorded and validated against the machine by TLC: stdout bytes, "
                 "exit status, empty stderr. Machine invariants (never stuck = type soundness within bounds, balanced stacks, "
-                "frame isolation) are checked in every visited state.",
+                "frame isolation) are checked in every visited state. Further families added after six rounds of seeded changes: negated comparisons, simultaneous assignment with wrapped operands, jumps of an outer loop around nested loops, jump sites in every kind of branch body, re-evaluation of one expression text before and inside loops; every typed position x every offered expression of spec/FamC06.tla is also run (compositional family); spec/FamScale.tla repeats the constructs at sizes across the digit boundaries (9-33).",
         "note": TRUST,
         "technique": "TLA+ abstract machine (TshDyn) + TLC trace validation of real transpile-and-run observations",
     },
     "C02": {
         "text": "TLC enumerates spec/FamC02.tla (every legal assignment of names to the roles global-before/parameter/local of two functions/global-after, "
                 "all arities and call shapes, in-place global updates by every assignment form, simultaneous and re-entrant multi-assignments, nested calls) "
-                "and validates each recorded Bash run against TshDyn's CallEnter/Return/AssignIn rules; FrameIsolation is an action property checked on every transition.",
+                "and validates each recorded Bash run against TshDyn's CallEnter/Return/AssignIn rules; FrameIsolation is an action property checked on every transition. Also: statement calls whose arguments are calls, loops that are live across a call, return forwarding, bracketless definitions, shadowing multi-definitions, and the FamScale cases (10+ functions, parameters, results, calls, locals).",
         "note": TRUST,
         "technique": "TLA+ abstract machine (frames, globals) + TLC trace validation of real transpile-and-run observations",
     },
     "C03": {
         "text": "TLC enumerates spec/FamC03.tla (all in-range (a,b) subscripts per string length, growth for every (length, index, element type) incl. two-digit "
                 "values, all two-step aliasing histories over three slice variables, copy for all length pairs) and validates each recorded Bash run against "
-                "TshDyn's slice heap (SliceNew, SetIdxApply, ApplyCopy, ApplyIndex, ApplySubstr); RefsValid is checked in every state.",
+                "TshDyn's slice heap (SliceNew, SetIdxApply, ApplyCopy, ApplyIndex, ApplySubstr); RefsValid is checked in every state. Also: nested / sequential range loops over every pair of lengths, copy as a statement and from / into globals inside functions, element values with punctuation, the compositional run family (FamC06 RunCases with slices and strings), FamScale (10+ slices, 9-33 elements, strings of 9-100 characters).",
         "note": TRUST,
         "technique": "TLA+ abstract machine (slice heap with references) + TLC trace validation of real transpile-and-run observations",
     },
     "C04": {
         "text": "Every operand position of every statement kind is filled with an effectful probe so that stdout is the evaluation log; TLC enumerates "
                 "spec/FamC04.tla and validates each recorded log against the eager, left-to-right, evaluate-once rules of TshDyn "
-                "(ExprPushOperands, IfEvalAllConds, LoopHead).",
+                "(ExprPushOperands, IfEvalAllConds, LoopHead). Also: one operand a literal or variable and the other with an effect (folding), arithmetic identities, exists / read next to a later operand that changes the file, continue from every kind of branch body with probed condition and increment, switches of 9-33 cases with the default in any position, 9-33 operands / arguments / conditions / elements.",
         "note": TRUST + " A plain variable read is not an effect (ordering of reads against later callee writes is unspecified, as in Go).",
         "technique": "effect-probe families enumerated by TLC + trace validation of the evaluation log against the TLA+ machine",
     },
@@ -146,9 +146,9 @@ CHECKS = {
         "text": "spec/Rename.tla applies a consistent renaming to the abstract syntax; TLC enumerates spec/FamC10.tla: 13 base programs covering every name-allocating construct x each user "
                 "identifier x a catalog of 60 variable / 23 function names the back-ends reserve or inherit from the shell, case-only variants, rotations, and names composed of other names "
                 "of the program with '_'. For every renamed program the recorded Bash run must be the behaviour TshDyn prescribes, or the transpiler must refuse; the specification's own "
-                "alpha invariance (expectation of renaming = expectation of base) is checked on every case. Captures on the unchanged tree are known findings K13-K15.",
-        "note": TRUST + " Only the Bash target is executed (Batch case folding is not exercised).",
-        "technique": "TLA+ renaming function (Rename) over TLC-enumerated base x identifier x reserved-name families + trace validation of real runs",
+                "alpha invariance (expectation of renaming = expectation of base) is checked on every case. Captures on the unchanged tree are known findings K13-K15. Batch side: every renamed program without file/command builtins is also converted by the real Batch converter and executed by TLC under spec/CmdExe.tla, in which variable names and labels fold letter case; findings K16-K19. Further name families: 59 name shapes, pairs of one shape, names that coincide once a function number is appended, write-only variables, same-spelling locals in caller and callee.",
+        "note": TRUST + " There is no cmd.exe in the sandbox: the Batch script runs under spec/CmdExe.tla.",
+        "technique": "TLA+ renaming function (Rename) over TLC-enumerated base x identifier x name families + trace validation of real Bash runs and of the real Batch script under the TLA+ cmd.exe model",
     },
 }
 
